@@ -25,6 +25,8 @@ from the worksharing induction variable is assumed, read/write conflicts are not
                 separated by a barrier on every path (explicit, or implied at the END of for/sections/single
                 without nowait; none at the entry of for/single, none for master/critical)
  block-clip     `B = (N + T - 1) / T; ip = B * t`: the block bound is clipped against N on every value path
+ block-cover    T blocks of size B cover N: ceil idiom, or (floor-derived B) one block takes the remainder
+ team-split     a block split indexed by omp_get_thread_num() is not sized by omp_get_max_threads()
  fp-table       calls through function pointers are resolved (targets read off the Python ctypes
                 call sites and C assignments), so that callee write summaries apply
  callback-global C functions handed to a parallel driver as callbacks write no global / static
@@ -347,6 +349,28 @@ def report_regions(chk, regions, tag=""):
                               "the last already sticks out whenever (T-1)*ceil(N/T) > N (e.g. N=5, T=4; N=130, T=16): "
                               "expected MIN(ip + B, N) - ip, MIN(B, N - ip) or an `if` clipping against N" % (
                                   desc, etext), instance=desc)
+        for ok, desc, node, why in r.block_covers:
+            if ok:
+                chk.ok("block-cover", desc, detail=why)
+            else:
+                chk.violation("block-cover", rel, r.func.name, "blocks of a floor-derived size do not cover the total",
+                              r.tu.line_of(node),
+                              "%s: the block size equals the floor quotient N/T for some sizes (e.g. when it is "
+                              "already a multiple of the padding), the blocks then cover only T*floor(N/T) points and "
+                              "no block takes the remainder N - ip: the last N %% T points are never processed, and the "
+                              "result depends on the team size. Expected B = (N + T - 1) / T, or a remainder branch "
+                              "for the last block" % desc, instance=desc)
+        for ok, desc, node, tname in r.team_splits:
+            if ok:
+                chk.ok("team-split", desc, detail="block index is the thread id; thread count is not omp_get_max_threads()")
+            else:
+                chk.violation("team-split", rel, r.func.name, "work split by thread id over omp_get_max_threads() blocks",
+                              r.tu.line_of(node),
+                              "%s: the block index is omp_get_thread_num() but the number of blocks `%s` comes from "
+                              "omp_get_max_threads(), which is only an upper bound of the team actually delivered "
+                              "(OMP_THREAD_LIMIT, OMP_DYNAMIC, nested regions): the blocks of the missing threads are "
+                              "never processed. Expected omp_get_num_threads() taken inside the region" % (desc, tname),
+                              instance=desc)
         for ok, desc, node in r.tid_scratch:
             if ok:
                 chk.ok("tid-scratch", desc)
@@ -432,6 +456,8 @@ def analyse(chk):
                              "id, protected, a reduction, or a named exception")
     chk.rule("ws-uniform", "worksharing loops, single and barrier are reached by all threads of the team")
     chk.rule("tid-scratch", "buffers split by thread id are sized by the thread count")
+    chk.rule("block-cover", "T blocks of the chosen size cover the total (ceil idiom, or a remainder branch)")
+    chk.rule("team-split", "a split indexed by the thread id uses the delivered team size, not omp_get_max_threads()")
     chk.rule("block-clip", "blocks of a ceil split by the thread count are clipped against the total on every path")
     chk.rule("barrier-order", "accesses to one shared object under different partitions (thread id / worksharing "
                               "loop / single) are separated by a barrier on every path")
@@ -446,8 +472,9 @@ def analyse(chk):
     chk.floor("region", 50, "108 parallel regions on the pinned tree; floor = half, a floor only guards against a vacuous pass")
     chk.floor("shared-store", 170, "350 stores/output arguments reaching shared memory on the pinned tree")
     chk.floor("ws-uniform", 55, "119 worksharing/single/barrier constructs on the pinned tree")
+    chk.floor("block-cover", 3, "7 block splits by a thread count on the pinned tree")
     chk.floor("block-clip", 3, "7 ceil-split block bounds on the pinned tree")
-    chk.floor("barrier-order", 4, "10 dependences between differently partitioned accesses on the pinned tree")
+    chk.floor("barrier-order", 2, "4 dependences between differently partitioned accesses that can both execute (pinned tree)")
     chk.floor("fp-table", 6, "7 Python rows + 6 indirect C call sites on the pinned tree")
     chk.floor("callback-global", 8, "16 libcider callbacks on the pinned tree")
     chk.extra["named_exceptions"] = {"%s:%s" % k: v for k, v in EXCEPTIONS.items()}
@@ -609,6 +636,16 @@ def mutants(tree):
                                 "bgrids = (thread == nthread - 1) ? ngrids - ip : blksize;")))
     m.append(Mutant("block end not clipped (contract_grad_terms_parallel)", CI, expect="block-clip",
                     old="const int ig1 = MIN(ig0 + ngrids_local, ngrids);", new="const int ig1 = ig0 + ngrids_local;"))
+    m.append(Mutant("thread-id split sized by omp_get_max_threads() (contract_grad_terms_parallel)", CI,
+                    expect="team-split",
+                    old="const int nthreads = omp_get_num_threads();", new="const int nthreads = omp_get_max_threads();"))
+    m.append(Mutant("block size padded from the floor quotient (SDMXcontract_ao_to_bas_bwd)", FS, expect="block-cover",
+                    fn=_in_func(FS, "SDMXcontract_ao_to_bas_bwd", "const int blksize = (ngrids + nthread - 1) / nthread;",
+                                "const int blksize = ((ngrids / nthread) + 7) & ~7;")))
+    m.append(Mutant("block size is the floor quotient, no remainder block (SDMXcontract_ao_to_bas_grid)", FS,
+                    expect="block-cover",
+                    fn=_in_func(FS, "SDMXcontract_ao_to_bas_grid", "const int blksize = (ngrids + nthread - 1) / nthread;",
+                                "const int blksize = ngrids / nthread;")))
     m.append(Mutant("callback run by the parallel driver stores to a global (GTOcontract_flapl0)", FL,
                     expect="callback-global",
                     fn=_in_func(FL, "GTOcontract_flapl0", "    double *my_spline = SPLINE + l * 4 * SPLINE_SIZE;\n",
